@@ -1,11 +1,12 @@
 import RasnModel.Proofs.Struct
-import RasnModel.Props.C05
+import RasnModel.Proofs.Recursion
 /-
   C02 — constructed types keep every component, in order, with the right shape.
   Model: Lexer/Assemble.lean + Gen/Struct.lean; Spec: Spec/Struct.lean (one field per component in
   source order; Option iff OPTIONAL or group; default iff DEFAULT; set marker; SetOf/SequenceOf;
   type per component). Boxing of recursive components is decided on the implementation's output
-  by the inline-reference-graph oracle (Spec/Recursion.lean); the linker's marking pass is not modelled.
+  by the inline-reference-graph oracle (Spec/Recursion.lean) and, since fix 26722d8, by the model of the
+  linker's marking pass (Link/Recursion.lean, theorems at the end of this file).
 -/
 namespace Props.C02
 open IR Lexer Gen.Struct Spec.Struct Proofs.Struct
@@ -192,14 +193,14 @@ theorem level_all (ctx : Ctx) (sctx : SCtx) (recG : Rec) (recS : SRec) (wfr : Sr
     intro parent root adds hr ha
     simp only [nestedGen, List.flatMap_append, List.map_append, List.map_flatMap, lexAdds, List.flatMap_map]
     congr 1
-    · apply Props.C05.flatMap_congr'
+    · apply Proofs.Struct.flatMap_congr'
       intro c hc
       have := List.all_eq_true.mp hr c hc
       simp only [nestedOf]
       by_cases hu : needsUnnesting c.ty = true
       · simp only [hu, if_true]; exact hrec _ _ _ _ _ this
       · simp only [hu, if_false]; rfl
-    · apply Props.C05.flatMap_congr'
+    · apply Proofs.Struct.flatMap_congr'
       intro a ha'
       have := List.all_eq_true.mp ha a ha'
       cases a with
@@ -282,5 +283,44 @@ theorem C02_all_depths (ctx : Ctx) (sctx : SCtx) :
 example : wf 3 (.seq true [.mk "a" none (.prim "BOOLEAN") .optional, .mk "b" none (.prim "INTEGER") .default,
       .mk "c" none (.seq false [.mk "d" none (.seqOf true (.prim "NULL") none) .required] false []) .required] true []) = true := by
   decide
+
+end Props.C02
+
+/-! ### recursive components are boxed — the recursion analysis (Link/Recursion.lean) -/
+namespace Props.C02
+open Link.Recursion
+
+/-- One member: the analysis marks it exactly when the definition it belongs to can be reached from
+    one of the references standing inline in the member's type, following members that are not
+    marked — for every set of definitions, any size, cycles included. -/
+theorem C02_member_marked_iff (name : String) (env : Env) (d : Def) (hm : d.markable = true) (i : Nat)
+    (hi : i < d.members.length) :
+    ∃ m', (markDef name env d).members[i]? = some m' ∧ m'.refs = d.members[i].refs ∧
+      (m'.marked = true ↔ ∃ r ∈ d.members[i].refs, Reach env name r) := by
+  unfold markDef
+  simp only [hm, if_true, List.getElem?_map, List.getElem?_eq_getElem hi, Option.map_some]
+  exact ⟨_, rfl, rfl, go_iff name env _⟩
+
+/-- The whole pass: once every definition has been analysed (in any order, each against the map
+    without itself, earlier ones with their final marks), no SEQUENCE / SET / CHOICE lies on a cycle
+    of inline references whose members are all unmarked: every such cycle is broken by a `Box`.
+    For every set of definitions with distinct names. -/
+theorem C02_boxing_breaks_every_cycle (env : Env) (hk : (keys env).Nodup) (h0 : InitEnv env) :
+    ∀ p ∈ markAll env, p.2.markable = true → ¬ OnCycle (markAll env) p.1 :=
+  markAll_acyclic env hk h0
+
+/-- … and the pass changes nothing but marks: same definitions, same order, same members, same references -/
+theorem C02_marking_changes_marks_only (env : Env) : skeleton (markAll env) = skeleton env :=
+  markAll_skeleton env
+
+/-- the analysis decides reachability: sound and complete -/
+theorem C02_recurses_iff_reachable (name : String) (env : Env) (refs : List String) :
+    go name env [] refs = true ↔ ∃ r ∈ refs, Reach env name r := go_iff name env refs
+
+/- non-vacuity (tests, evaluated): mutual recursion — the first definition analysed gets the box;
+   a definition reached only through an alias; a diamond that is not a cycle -/
+#guard (markAll [("A", ⟨true, [⟨false, ["B"]⟩]⟩), ("B", ⟨true, [⟨false, ["A"]⟩]⟩)]).map (fun p => p.2.members.map (·.marked)) = [[true], [false]]
+#guard (markAll [("A", ⟨false, [⟨false, ["B"]⟩]⟩), ("B", ⟨true, [⟨false, ["A"]⟩, ⟨false, []⟩]⟩)]).map (fun p => p.2.members.map (·.marked)) = [[false], [true, false]]
+#guard (markAll [("A", ⟨true, [⟨false, ["B"]⟩, ⟨false, ["C"]⟩]⟩), ("B", ⟨true, [⟨false, ["D"]⟩]⟩), ("C", ⟨true, [⟨false, ["D"]⟩]⟩), ("D", ⟨true, []⟩)]).map (fun p => p.2.members.map (·.marked)) = [[false, false], [false], [false], []]
 
 end Props.C02
